@@ -303,32 +303,27 @@ theorem best_case_state_ice (r : PredRecord α) (fu : FeatureUnits) (d : α) (du
     ((Vehicle.ice r).bestCaseEnergyState fu d du s).liquid
       = s.liquid + r.rateUnit.associatedEnergyUnit.convert fu.liquid ((Vehicle.ice r).bestCaseEnergy d du).1 := rfl
 
-/-
-Full statement (BEV, PHEV): `best_case_energy_state` adds the best-case energy E — a quantity in the
-rate's energy unit — to `energy_electric` and moves the charge by `-100 · E[battery unit] / capacity`:
-    s'.electric = s.electric + convert(rate energy unit → feature unit)(E)
-    s'.soc      = clamp (s.soc − 100 · convert(rate energy unit → battery unit)(E) / capacity) 0 100
-The code passes E with the *battery's* unit as its tag and uses the raw number against the capacity, so
-this holds only when the battery unit is the rate's energy unit (`_partial`); otherwise it is false
-(`best_case_state_unit_mix_counterexample`).
--/
-theorem best_case_state_partial (v : Vehicle α) (b : Battery α) (fu : FeatureUnits) (d : α) (du : DistanceUnit)
-    (s : VState α) (hv : (∃ r, v = .bev r b) ∨ (∃ sus dep, v = .phev sus dep b))
-    (hunit : b.unit = (bestRecord v).rateUnit.associatedEnergyUnit) (hcap : b.capacity ≠ 0) :
+/-- C08 `best_case` as recorded in the state (BEV, PHEV), every unit configuration:
+`best_case_energy_state` adds the best-case energy E — a quantity in the rate's energy unit —
+converted to the feature's unit to `energy_electric`, and moves the charge by
+`-100 · E[battery unit] / capacity`, clamped.  (Before /repo fix c9bc328 the code tagged E with the
+battery's unit and used the raw number against the capacity; the theorem then needed
+`battery unit = rate's energy unit` and a counterexample stood beside it — the old witness is now
+`best_case_state_unit_mix_regression`.) -/
+theorem best_case_state (v : Vehicle α) (b : Battery α) (fu : FeatureUnits) (d : α) (du : DistanceUnit)
+    (s : VState α) (hv : (∃ r, v = .bev r b) ∨ (∃ sus dep, v = .phev sus dep b)) (hcap : b.capacity ≠ 0) :
     (v.bestCaseEnergyState fu d du s).electric
         = s.electric + (bestRecord v).rateUnit.associatedEnergyUnit.convert fu.electric (v.bestCaseEnergy d du).1
       ∧ (v.bestCaseEnergyState fu d du s).soc
         = clamp (s.soc - 100 * (bestRecord v).rateUnit.associatedEnergyUnit.convert b.unit (v.bestCaseEnergy d du).1
                   / b.capacity) 0 100 := by
   rcases hv with ⟨r, rfl⟩ | ⟨sus, dep, rfl⟩
-  · simp only [bestRecord] at hunit ⊢
-    simp only [Vehicle.bestCaseEnergyState]
-    rw [updateSoc_soc _ _ _ hcap, ← hunit]
-    simp
-  · simp only [bestRecord] at hunit ⊢
-    simp only [Vehicle.bestCaseEnergyState]
-    rw [updateSoc_soc _ _ _ hcap, ← hunit]
-    simp
+  · simp only [bestRecord, Vehicle.bestCaseEnergyState]
+    rw [updateSoc_soc _ _ _ hcap]
+    exact ⟨rfl, rfl⟩
+  · simp only [bestRecord, Vehicle.bestCaseEnergyState]
+    rw [updateSoc_soc _ _ _ hcap]
+    exact ⟨rfl, rfl⟩
 
 /-- `estimate_traversal` (the A* heuristic; `hm` = great-circle distance in metres): a zero distance
 leaves the state alone; otherwise, after the time model's estimate (which touches neither energy nor
@@ -370,12 +365,10 @@ theorem estimate_energy_ice (svc : Service α) (eng : SpeedEngine α) (ms : α) 
   · rw [hz] at hz'; cases hz'
   · rw [best_case_state_ice, hl]; rfl
 
-/-- … and for a battery vehicle whose battery unit is the rate's energy unit (`_partial`; without
-that hypothesis `best_case_state_unit_mix_counterexample` applies) -/
-theorem estimate_energy_battery_partial (svc : Service α) (eng : SpeedEngine α) (ms : α) (v : Vehicle α)
+/-- … and for a battery vehicle, whatever unit its battery capacity is configured in -/
+theorem estimate_energy_battery (svc : Service α) (eng : SpeedEngine α) (ms : α) (v : Vehicle α)
     (b : Battery α) (fu : FeatureUnits) (hm : α) (s s' : VState α)
-    (hv : (∃ r, v = .bev r b) ∨ (∃ sus dep, v = .phev sus dep b))
-    (hunit : b.unit = (bestRecord v).rateUnit.associatedEnergyUnit) (hcap : b.capacity ≠ 0)
+    (hv : (∃ r, v = .bev r b) ∨ (∃ sus dep, v = .phev sus dep b)) (hcap : b.capacity ≠ 0)
     (h : estimateTraversal svc eng ms v fu hm s = .ok s')
     (hz : isZero (DistanceUnit.meters.convert svc.distanceUnit hm) = false) :
     s'.electric = s.electric + (bestRecord v).rateUnit.associatedEnergyUnit.convert fu.electric
@@ -383,7 +376,7 @@ theorem estimate_energy_battery_partial (svc : Service α) (eng : SpeedEngine α
         (DistanceUnit.meters.convert svc.distanceUnit hm)) := by
   rcases estimate_ok h with ⟨hz', _⟩ | ⟨_, s1, _, hel, _, rfl⟩
   · rw [hz] at hz'; cases hz'
-  · rw [(best_case_state_partial v b fu _ svc.distanceUnit s1 hv hunit hcap).1, hel, best_case]
+  · rw [(best_case_state v b fu _ svc.distanceUnit s1 hv hcap).1, hel, best_case]
 
 /-- the estimate keeps the charge within 0–100 as well -/
 theorem estimate_soc_bounds (svc : Service α) (eng : SpeedEngine α) (ms : α) (v : Vehicle α)
@@ -576,9 +569,10 @@ theorem traverseEdge_inputs {svc : Service α} {eng : SpeedEngine α} {v : Vehic
 /-
 Full statement of `edge_energy`: for every vehicle, unit configuration and cache, the energy recorded
 for an edge is `edgeEnergy` (rate at the edge's speed and grade × adjustment × length) in the
-feature's unit.  It is false for an arbitrary cache (`cache_key_collision_counterexample`,
-`cache_rounding_counterexample`: the float cache's rounded / truncated key lets an edge be charged
-the rate of an earlier, different speed or grade); it is proved below without a cache and with any
+feature's unit.  It is false for an arbitrary cache (`cache_rounding_counterexample`: the float
+cache's rounded key lets an edge be charged the rate of an earlier, slightly different speed or grade
+— the precision trade-off of a rounding cache; a truncated key is no longer possible,
+`cache_key_length_rejected`); it is proved below without a cache and with any
 cache that is sound and whose key determines the prediction (`CacheFine`, e.g. an exact key) —
 hence `_partial`.
 -/
@@ -739,6 +733,33 @@ def CachesFine (v : Vehicle α) (su : SpeedUnit) (gu : GradeUnit) (c : Caches K 
 
 def noCaches : Caches K α := { main := none, sustain := none }
 
+theorem cacheInUse_noCaches (v : Vehicle α) (s : VState α) :
+    cacheAccepts (v.cacheInUse (noCaches : Caches K α) s) = true := by
+  cases v with
+  | ice r => rfl
+  | bev r b => rfl
+  | phev sus dep b => simp only [Vehicle.cacheInUse, noCaches]; split <;> rfl
+
+/-- C08 (cache policy of the wrong length): a record whose `float_cache_policy` does not have one
+`key_precisions` entry per model input (speed, grade) never serves an edge — the traversal fails
+with a cache error instead of keying the cache on a truncated key.  (Before /repo fix ffa428b `zip`
+silently dropped inputs: with `key_precisions = [2]` the grade was not part of the key; the old
+counterexample is now `cache_key_length_regression`.  The vehicle builders reject such a policy
+when the configuration is read: `cachesConfigOk`.) -/
+theorem cache_key_length_rejected (svc : Service α) (eng : SpeedEngine α) (v : Vehicle α) (fu : FeatureUnits)
+    (e : Edge α) (st st' : VState α × Caches K α)
+    (h : ∀ s, cacheAccepts (v.cacheInUse st.2 s) = false) :
+    traverseEdge svc eng v fu e st ≠ .ok st' := by
+  intro h'
+  simp only [traverseEdge] at h'
+  split at h'
+  · cases h'
+  · split at h'
+    · cases h'
+    · split at h'
+      · rename_i hc; rw [h] at hc; cases hc
+      · cases h'
+
 theorem consume_cache_irrelevant (v : Vehicle α) (fu : FeatureUnits) (c : Caches K α)
     (speed : α) (su : SpeedUnit) (grade : α) (gu : GradeUnit) (d : α) (du : DistanceUnit) (s : VState α)
     (hc : CachesFine v su gu c) :
@@ -786,7 +807,7 @@ theorem route_cache_irrelevant (svc : Service α) (eng : SpeedEngine α) (v : Ve
           = .ok (v.consumeEnergy fu (noCaches : Caches K α) (reconstructSpeed svc fu e s s1)
               svc.timeModelSpeedUnit grade svc.gradeUnit
               (baseDistanceUnit.convert svc.distanceUnit e.distance) svc.distanceUnit s1) := by
-        simp only [traverseEdge, ht, hg]
+        simp only [traverseEdge, ht, hg, cacheInUse_noCaches, if_true]
       rw [hno]
       simp only
       have hcn : (v.consumeEnergy fu (noCaches : Caches K α) (reconstructSpeed svc fu e s s1)
@@ -923,24 +944,26 @@ def cxRec : PredRecord ℚ :=
   { rate := fun s g => 1 / 5 + s / 1000 + 3 * g, speedUnit := .milesPerHour, gradeUnit := .decimal,
     rateUnit := .kilowattHoursPerMile, idealRate := 1 / 5, adjustment := 1 }
 
-/-- `key_precisions = [2]`: `zip` drops the grade, the key is the speed rounded to 0.01 -/
-def cxCache : Cache Int ℚ := { capacity := 100, keyOf := fun s _ => Rat.floor (s * 100 + 1 / 2), entries := [] }
+/-- `key_precisions = [2]`: one precision for two inputs (`zip` would drop the grade and key on the
+speed rounded to 0.01) -/
+def cxCache : Cache Int ℚ :=
+  { capacity := 100, keyOf := fun s _ => Rat.floor (s * 100 + 1 / 2), entries := [], arityOk := false }
 
-/-- Defect witness (`predict/cache-key-collision`): with `key_precisions` shorter than two entries the
-grade is not part of the cache key, so after a flat edge at 30 mph an uphill edge at 30 mph is
-charged the flat rate: the energy recorded is *not* the rate at the edge's speed and grade. -/
-theorem cache_key_collision_counterexample :
-    (cxRec.predict (cxRec.predict (some cxCache) 30 .milesPerHour 0 .decimal 1 .miles).2
-        30 .milesPerHour (1 / 10) .decimal 1 .miles).1
-      ≠ (cxRec.predict (none : Option (Cache Int ℚ)) 30 .milesPerHour (1 / 10) .decimal 1 .miles).1 := by
-  decide +kernel
+/-- Regression witness of the repaired defect `predict/cache-key-length`: the one-precision policy is
+refused — by `FloatCachePolicy::get` on the first prediction and by the vehicle builders when the
+configuration is read — so an uphill edge can no longer be charged the cached flat rate. -/
+theorem cache_key_length_regression :
+    cacheAccepts (some cxCache) = false
+      ∧ cachesConfigOk ({ main := some cxCache, sustain := none } : Caches Int ℚ) = false := by
+  decide
 
 /-- `key_precisions = [0, 0]`: both inputs are in the key, rounded to integers -/
 def cxCache0 : Cache (Int × Int) ℚ :=
   { capacity := 100, keyOf := fun s g => (Rat.floor (s + 1 / 2), Rat.floor (g + 1 / 2)), entries := [] }
 
-/-- … and with coarse precisions two different speeds share a key: 30.4 mph is charged the rate of
-30.0 mph (the deviation is bounded by the precision only when both precisions are present). -/
+/-- What remains of the cache finding (`predict/cache-rounding-collision`, the documented trade-off of
+a rounding cache): with a well-formed but coarse policy two different speeds share a key — 30.4 mph
+is charged the rate of 30.0 mph; the deviation is bounded by the key precision. -/
 theorem cache_rounding_counterexample :
     (cxRec.predict (cxRec.predict (some cxCache0) 30 .milesPerHour 0 .decimal 1 .miles).2
         (152 / 5) .milesPerHour 0 .decimal 1 .miles).1
@@ -953,17 +976,18 @@ def exBevCx : Vehicle ℚ := .bev cxRec { capacity := 60, startEnergy := 60, uni
 def cxMixedUnits : FeatureUnits :=
   { time := .hours, distance := .miles, liquid := .gallonsGasoline, electric := .gallonsGasoline }
 
-/-- Defect witness (`best_case_energy_state/unit-mix`): the best-case energy of 10 miles is 2 kWh
-(0.062 gallons); `best_case_energy_state` records 2 *gallons* and empties the battery (50 % → 0 %)
-where `-100 · E / capacity` gives 46.9 %. -/
-theorem best_case_state_unit_mix_counterexample :
+/-- Regression witness of the repaired defect `best_case_energy_state/unit-mix`: the best-case energy
+of 10 miles is 2 kWh = 0.062 gallons; `best_case_energy_state` records 0.062 gallons and moves the
+half-full 2-gallon battery to 46.9 % (before the fix: 2 *gallons* recorded, battery emptied). -/
+theorem best_case_state_unit_mix_regression :
     (cxMixedBev.bestCaseEnergyState cxMixedUnits 10 .miles cxMixedBev.initialState).electric
-        ≠ cxMixedBev.initialState.electric
+        = cxMixedBev.initialState.electric
             + EnergyUnit.kilowattHours.convert .gallonsGasoline (cxMixedBev.bestCaseEnergy 10 .miles).1
       ∧ (cxMixedBev.bestCaseEnergyState cxMixedUnits 10 .miles cxMixedBev.initialState).soc
-        ≠ clamp (cxMixedBev.initialState.soc
+        = clamp (cxMixedBev.initialState.soc
             - 100 * EnergyUnit.kilowattHours.convert .gallonsGasoline (cxMixedBev.bestCaseEnergy 10 .miles).1 / 2)
-            0 100 := by
+            0 100
+      ∧ 0 < (cxMixedBev.bestCaseEnergyState cxMixedUnits 10 .miles cxMixedBev.initialState).soc := by
   decide +kernel
 
 /-
